@@ -1,5 +1,144 @@
-(* C20 — hardware-diagnostics signatures and register dumps are decoded field-exactly. *)
+(* C20 — hardware-diagnostics signatures and register dumps are decoded field-exactly.
+   Only statements; every proof is [exact] of a lemma from Proofs/HwdiagsFacts.v.
+
+   Reading guide.  [cd : chipdata] is the content of the chip-data files (an arbitrary environment: no file,
+   files with any key missing at any level, any strings).  [asig]/[achip]/[areg] are numbers of the stated
+   widths; [encode_*] lay them out big-endian at the stated byte positions; [*_render] is the display the
+   property prescribes, computed from the numbers (Spec/HwdiagsSpec.v).  [get_signature], [oe500_ud],
+   [oe500_src] are the model of ParserData.get_signature, udparsers.oe500.parseUDToJson and
+   srcparsers.oe500.parseSRCToJson (Model/Hwdiags.v).  [spells w b]: the hex word w, in any letter case,
+   spells the bytes b. *)
 From Coq Require Import List NArith ZArith Bool Arith.
-From PV Require Import Base.Bytes Base.Lit Base.Json Model.Hwdiags Spec.HwdiagsSpec Proofs.HwdiagsFacts.
+From PV Require Import Base.Bytes Base.Lit Base.Json Base.Utf8 Model.Hwdiags Spec.HwdiagsSpec
+                       Proofs.HwdiagsUtf8 Proofs.HwdiagsFacts.
 Import ListNotations.
 Open Scope N_scope.
+
+(* every signature of the stated widths, every chip-data environment, every letter case of the three words:
+   the fields shown are those at bytes 0-3 / 4-5 / 6 / 7 / 8-9 / 10 / 11 *)
+Theorem C20_signature : forall cd s wa wb wc, asig_wf s ->
+  spells wa (word_a s) -> spells wb (word_b s) -> spells wc (word_c s) ->
+  get_signature cd wa wb wc = Some (sig_render cd s).
+Proof. exact get_signature_spells. Qed.
+Print Assumptions C20_signature.
+
+(* "all 2^96 signatures": every 12 bytes are the encoding of a well-formed abstract signature *)
+Theorem C20_signature_onto : forall bs, length bs = 12%nat -> Forall (fun b => b < 256) bs ->
+  exists s, asig_wf s /\ encode_sig s = bs.
+Proof. exact encode_sig_onto. Qed.
+Print Assumptions C20_signature_onto.
+
+(* letter case is invisible, for arbitrary texts (also those that are rejected) *)
+Theorem C20_case : forall cd a b c,
+  get_signature cd (upper a) (upper b) (upper c) = get_signature cd (lower a) (lower b) (lower c) /\
+  get_signature cd (lower a) (lower b) (lower c) = get_signature cd a b c.
+Proof. exact (fun cd a b c => conj (get_signature_case cd a b c) (get_signature_lower cd a b c)). Qed.
+Print Assumptions C20_case.
+
+(* for every chip-data environment the result is defined; without a file for the chip it is the raw-number
+   rendering; with a file, each of the five look-ups (type, description, signature name, bit description,
+   attention name) that finds nothing ([None]) contributes its raw number (see chip_text/sig_text/attn_text) *)
+Theorem C20_fallback : forall cd s wa wb wc, asig_wf s ->
+  spells wa (word_a s) -> spells wb (word_b s) -> spells wc (word_c s) ->
+  (exists c g a, get_signature cd wa wb wc = Some (sig_fields c g a)) /\
+  (find_chip cd (a_model s) = None -> get_signature cd wa wb wc = Some (sig_render_raw s)) /\
+  get_signature cd wa wb wc = Some (sig_fields
+    (chip_text (cd_type cd (a_model s)) (cd_desc cd (a_model s)) (a_model s) (a_node s) (a_pos s))
+    (sig_text (cd_signame cd (a_model s) (a_id s)) (cd_sigbit cd (a_model s) (a_id s) (a_bit s)) (a_id s) (a_inst s) (a_bit s))
+    (attn_text (cd_attn cd (a_model s) (a_attn s)) (a_attn s))).
+Proof. exact signature_fallback. Qed.
+Print Assumptions C20_fallback.
+
+(* a signature list of any count (below 2^32) decodes to the list of its signatures, in order; bytes after
+   the last signature are ignored *)
+Theorem C20_siglist : forall cd l rest version, Forall asig_wf l -> N.of_nat (length l) < 2 ^ 32 ->
+  oe500_ud cd 1 version (encode_siglist l ++ rest) = HwOk (siglist_render cd l).
+Proof. exact siglist_ok. Qed.
+Print Assumptions C20_siglist.
+
+(* a register dump lists every chip and every register in order with id, instance, address and data; the
+   only requirement on the chip data is that the addresses it gives for these registers are hex numbers
+   (otherwise int(.., 16) raises, in the model too) *)
+Theorem C20_regdump : forall cd l rest version, regdump_wf l -> regdump_addrs_ok cd l ->
+  oe500_ud cd 2 version (encode_regdump l ++ rest) = HwOk (regdump_render cd l).
+Proof. exact regdump_ok. Qed.
+Print Assumptions C20_regdump.
+
+(* ... which holds for every dump when the chip data has no malformed address, in particular with no chip data *)
+Theorem C20_regdump_env : forall cd l, cd_addrs_wf cd -> regdump_addrs_ok cd l.
+Proof. exact addrs_wf_ok. Qed.
+Print Assumptions C20_regdump_env.
+Theorem C20_regdump_nodata : cd_addrs_wf [].
+Proof. exact nodata_addrs_wf. Qed.
+Print Assumptions C20_regdump_nodata.
+
+(* "exactly its data bytes": the data column of a register line reads back as the encoded bytes *)
+Theorem C20_regdump_data : forall d, Forall (fun b => b < 256) d -> data_back (join (L " ") (data_groups d)) = d.
+Proof. exact data_back_ok. Qed.
+Print Assumptions C20_regdump_data.
+
+(* scratch registers: both pairs shown (the two keys can never coincide), values digit for digit *)
+Theorem C20_scratch : forall cd version ca cv sa sv rest,
+  oe500_ud cd 4 version (encode_scratch ca cv sa sv ++ rest) = HwOk (scratch_render ca cv sa sv).
+Proof. exact scratch_ok. Qed.
+Print Assumptions C20_scratch.
+Theorem C20_scratch_sig : forall cd version chipid sigid rest,
+  oe500_ud cd 5 version (encode_scratch_sig chipid sigid ++ rest) = HwOk (scratch_sig_render chipid sigid).
+Proof. exact scratch_sig_ok. Qed.
+Print Assumptions C20_scratch_sig.
+(* the n digits shown determine a value below 16^n (32-bit values: 8 digits, 64-bit values: 16 digits) *)
+Theorem C20_hex_faithful : forall n v, v < 16 ^ N.of_nat n -> hexnum (hex_fixed hexdigL n v) = v.
+Proof. exact hex_shown_faithful. Qed.
+Print Assumptions C20_hex_faithful.
+
+(* callout FFDC: a text that does not end in U+0000, encoded as UTF-8 and padded with any number of NULs,
+   is shown as the value json.loads gives for exactly that text *)
+Theorem C20_ffdc : forall cd version t b k, utf8_encode t = Some b -> ends_nul t = false ->
+  oe500_ud cd 3 version (b ++ repeat 0 k) = HwOk (ffdc_render t).
+Proof. exact ffdc_ok. Qed.
+Print Assumptions C20_ffdc.
+
+(* SRC details use words 6..8 (words 2..5 and 9 are arbitrary) and characters 6..7 of the reference code *)
+Theorem C20_src : forall cd refcode s w2 w3 w4 w5 w6 w7 w8 w9, asig_wf s ->
+  spells w6 (word_a s) -> spells w7 (word_b s) -> spells w8 (word_c s) ->
+  oe500_src cd refcode [w2; w3; w4; w5; w6; w7; w8; w9] = HwOk (src_render cd refcode s).
+Proof. exact src_ok. Qed.
+Print Assumptions C20_src.
+
+(* other sub-types give null; no input makes a loop run out of fuel (termination); truncated signature lists
+   and scratch sections are rejected, never rendered *)
+Theorem C20_other_subtype : forall cd sub version data, 6 <= sub \/ sub = 0 -> oe500_ud cd sub version data = HwOk JNull.
+Proof. exact other_subtype_null. Qed.
+Print Assumptions C20_other_subtype.
+Theorem C20_no_fuel : forall cd sub version data, oe500_ud cd sub version data <> HwFuel.
+Proof. exact oe500_ud_no_fuel. Qed.
+Print Assumptions C20_no_fuel.
+Theorem C20_siglist_truncated : forall cd l version k, Forall asig_wf l -> N.of_nat (length l) < 2 ^ 32 ->
+  (k < length (encode_siglist l))%nat -> oe500_ud cd 1 version (firstn k (encode_siglist l)) = HwRaise.
+Proof. exact siglist_truncated. Qed.
+Print Assumptions C20_siglist_truncated.
+Theorem C20_scratch_truncated : forall cd version data,
+  ((length data < 24)%nat -> oe500_ud cd 4 version data = HwRaise) /\
+  ((length data < 8)%nat -> oe500_ud cd 5 version data = HwRaise).
+Proof. exact (fun cd v d => conj (scratch_truncated cd v d) (scratch_sig_truncated cd v d)). Qed.
+Print Assumptions C20_scratch_truncated.
+
+(* non-vacuity: a concrete signature under a concrete chip-data file, through the SRC plugin with
+   upper-case words, and a one-register dump, by computation *)
+Definition ex_cd : chipdata :=
+  [(L "20da0020", {| c_type := Some (L "PROC"); c_desc := None; c_attn := [(L "2", L "UNIT_CS")];
+                     c_sigs := [(L "55aa", {| sg_name := L "EQ_FIR"; sg_bits := [(L "7", L "parity error")] |})];
+                     c_regs := [(L "abcdef", {| rg_name := L "EQ_FIR_MASK"; rg_addrs := [(L "3", L "0x20010A45")] |})] |})].
+Example C20_example :
+  oe500_src ex_cd (L "BD8D5610") [L "0"; L "0"; L "0"; L "0"; L "20DA0020"; L "12340502"; L "55AA0307"; L "0"]
+  = HwOk (JObj [(L "Primary Attention", JStr (L "system checkstop"));
+                (L "Signature Description",
+                 JObj [(L "Chip Desc", JStr (L "node 5 PROC 4660 (20DA0020)"));
+                       (L "Signature", JStr (L "EQ_FIR(3)[7] parity error"));
+                       (L "Attn Type", JStr (L "UNIT_CS"))])]) /\
+  oe500_ud ex_cd 2 1 (encode_regdump [{| h_model := 551157792; h_pos := 1; h_node := 0;
+                                         h_regs := [{| r_id := 11259375; r_inst := 3; r_data := [222; 173; 190] |}] |}])
+  = HwOk (JObj [(L "Register Dump",
+                 JArr [JStr (L "node 0 PROC 1 (20DA0020) ***********************************");
+                       JStr (L "  EQ_FIR_MASK               (0x20010A45) DEAD BE")])]).
+Proof. vm_compute. split; reflexivity. Qed.
